@@ -283,6 +283,7 @@ def run(repo='/repo', tier='quick'):
                   'fields that change together: the stream offset moves wherever the read offset of the same direction is advanced past consumed bytes, and a body data record gets its transaction and its length in the same step')
     c06i(db, res)
     c06j(db, res)
+    c06k(db, res)
     return res
 
 
@@ -367,6 +368,51 @@ def c06j(db, res):
                 res.check(bad is None, 'C06.j', '%s:line-consumed-after-count' % name, 'every path counts the line before it consumes it',
                           '%s consumes the consolidated line (%s bytes) on a path that has not added it to %s: framing bytes taken from the wire are missing from the reported message length' % (name, L, acc), (bad or cc).get('loc', f.loc))
     res.floor('C06.j', 'consolidated framing lines in body states', n, 2)
+
+
+def c06k(db, res):
+    """The response side leaves a chunk-length line early ("not chunked after all") when data_probe_chunk_length() says that the
+    line does not start like a number. That verdict is about the FIRST significant byte of the line: once a hex digit has been
+    seen, whatever follows (a chunk extension, trailing blanks) belongs to the line. The probe keeps no state between calls, so
+    the only way it can know what came before the current byte is to scan the line from its start; a verdict "no" outside such
+    a scan classifies the byte at hand alone and cuts `5;ext=1` at the semicolon - chunk data is then taken from inside the
+    chunk-length line."""
+    res.rule('C06.k', 'the chunk-length probe judges the line, not the byte at hand: data_probe_chunk_length stores to no parser field, so each of its "not a chunk length" returns (0) lies inside a loop that walks the bytes of the line (carry buffer or unconsumed span) from index 0')
+    f = db.fn.get('data_probe_chunk_length')
+    if f is None:
+        raise AnalysisBroken('data_probe_chunk_length not found')
+    stateless = not any(strip(w['l']).get('k') == 'member' for b, i, st in f.stmts() for w in nodes(st, lambda y: y.get('k') == 'assign'))
+    lps = C.loops(f)
+    n = 0
+    for b, i, st in f.returns() or []:
+        rv = P.ret_value(st)
+        if rv is None or not is_lit(rv, 0):
+            continue
+        n += 1
+        # a return leaves the loop, so its block is not part of the natural loop: it belongs to the loop when it is reachable
+        # from the header's body successor without passing the header again
+        inner = []
+        for h, body in lps:
+            seen_, w_ = set(), [s_ for s_ in f.blocks[h]['succs'] if s_ is not None and s_ in body]
+            while w_:
+                x_ = w_.pop()
+                if x_ in seen_ or x_ == h:
+                    continue
+                seen_.add(x_)
+                w_ += [s_ for s_ in f.blocks[x_]['succs'] if s_ is not None]
+            if b in seen_:
+                inner.append((h, body))
+        walks = False
+        for h, body in inner:
+            # a cursor that starts at 0, is stepped in the loop and subscripts bytes
+            stepped = {strip(u['e'])['name'] for bb in body for s2 in f.blocks[bb]['stmts'] for u in nodes(s2, lambda y: y.get('k') == 'un' and y['op'] in ('++', '++post') and strip(y['e']).get('k') == 'var')}
+            subs = {strip(x['idx'])['name'] for bb in body for s2 in list(f.blocks[bb]['stmts']) + ([f.cond_of(bb)[0]] if f.cond_of(bb) else []) for x in nodes(s2, lambda y: y.get('k') == 'index' and strip(y['idx']).get('k') == 'var')}
+            zero = {v['name'] for bb, ii, s2 in f.stmts() for d in nodes(s2, lambda y: y.get('k') == 'decl') for v in d['vars'] if v.get('init') is not None and is_lit(strip(v['init']), 0)}
+            if stepped & subs & zero:
+                walks = True
+        res.check(walks or not stateless, 'C06.k', 'data_probe_chunk_length:return-0@%s' % ('|'.join('%s%s%s' % a for a, e in P.facts_at(f, b)[-1:]) or 'top'), 'inside a scan of the line from its first byte',
+                  'data_probe_chunk_length answers "not a chunk length" outside any scan of the line (it keeps no state, so it judges the byte at hand alone): a chunk-length line with a chunk extension or anything else after the digits is cut short and chunk data is taken from inside the line', st['loc'])
+    res.floor('C06.k', '"not a chunk length" returns of the probe', n, 1)
 
 
 def central_accounting(db, proc, fld):
